@@ -2,15 +2,20 @@ import GettsimVerif.Driver
 import GettsimVerif.DriverOps
 open Lean GV GV.Drv
 
-partial def loop (h : IO.FS.Stream) : IO Unit := do
+partial def loop (h : IO.FS.Stream) (st : St) : IO Unit := do
   let line ← h.getLine
   if line.isEmpty then return ()
-  let res : Json := match Json.parse line with
-    | .error e => Json.mkObj [("bad", .str e)]
-    | .ok j => match GV.Drv.dispatch j with
-      | .ok r => r
-      | .error e => Json.mkObj [("bad", .str e)]
+  let (st', res) : St × Json := match Json.parse line with
+    | .error e => (st, Json.mkObj [("bad", .str e)])
+    | .ok j =>
+      match (do let op ← str j "op"; statefulOp st op j) with
+      | .ok (some (st', r)) => (st', r)
+      | .ok none => (st, match GV.Drv.dispatch j with
+        | .ok r => r
+        | .error e => Json.mkObj [("bad", .str e)])
+      | .error e => (st, Json.mkObj [("bad", .str e)])
   IO.println res.compress
-  loop h
+  (← IO.getStdout).flush
+  loop h st'
 
-def main : IO Unit := do loop (← IO.getStdin)
+def main : IO Unit := do loop (← IO.getStdin) {}
